@@ -54,7 +54,7 @@ impl InFlightRequests {
     ) -> Result<AbortRegistration, AlreadyExistsError> {
         match self.request_data.entry(request_id) {
             hash_map::Entry::Vacant(vacant) => {
-                let timeout = deadline.time_until();
+                let timeout = deadline.time_until().min(crate::util::MAX_TIMEOUT);
                 let (abort_handle, abort_registration) = AbortHandle::new_pair();
                 let deadline_key = self.deadlines.insert(request_id, timeout);
                 vacant.insert(RequestData {
